@@ -61,6 +61,12 @@ theorem patch_seq (ops : List OpObj) (d : Node) (hd : d.Valid) (hops : ∀ o ∈
     runPatch ops d = runRfc ops d :=
   runPatch_eq_runRfc ops d hd hops
 
+/-- … in particular after every prefix of the sequence the two documents are the same
+    ("step by step"). -/
+theorem patch_seq_prefix (ops : List OpObj) (k : Nat) (d : Node) (hd : d.Valid) (hops : ∀ o ∈ ops, OpOk o) :
+    (runPatch (ops.take k) d).1 = (runRfc (ops.take k) d).1 := by
+  rw [patch_seq (ops.take k) d hd (fun o ho => hops o (List.mem_of_mem_take ho))]
+
 /-! ## the reference is the RFC (sanity theorems about `rfc6902` itself) -/
 
 /-- 4.4: a location cannot be moved into one of its children — for every document. -/
